@@ -22,6 +22,8 @@ Everything that quantifies over topologies (arbitrary meshes, `create_edges` adj
 library / file format are outside the claim: see OUTSIDE.
 """
 import io
+import os
+import types
 import math
 import itertools
 
@@ -45,7 +47,7 @@ OUTSIDE = ('validity for ARBITRARY topologies (the quantifier of the property is
            'comparison, i.e. enumerate topologies); here its output is a concrete table per fixed topology, checked by ground facts and given its geometric meaning',
            'Mesh.combine_mesh / combine_blocks / combine_nodesets / combine_sidesets: covered by O8 (PX) for symbolic mesh sizes and symbolic set contents with small fixed numbers of '
            'sets and entries per set; larger numbers of sets/entries and degree > 1 meshes are outside',
-           'ReadMesh.read_json_mesh as a file reader (JSON; plain data movement into construct_mesh_from_basic_data): not applicable. ReadExodusMesh.read_exodus_mesh: the netCDF C '
+           'ReadMesh.read_json_mesh: the JSON text format and json.load stay outside; the movement of symbolic node-set / side-set content into construct_mesh_from_basic_data is O10 (PX). ReadExodusMesh.read_exodus_mesh: the netCDF C '
            'library and the file format stay outside; the reader\'s own bookkeeping is covered through in-memory stand-ins for the file: Tri6 node order on symbolic geometry (O5) and '
            'multi-block files with symbolic block sizes, 1-based to 0-based conversion, block offsets, block maps, node and side sets, generated names (O9, PX)',
            'Surface.create_edges (Python-level branching on a user predicate of the coordinates) and create_nodesets_from_sidesets (numpy.unique)',
@@ -1581,7 +1583,7 @@ def o9(h):
              '(1-based symbolic node ids in range), one generic node, element map known at the generic element of every block, up to 2 node sets / side sets with 1..2 symbolic 1-based entries'
              % (', '.join(s[0] for s in EXO_SCENARIOS), NF_MAX))
     h.outside(*(t for t in OUTSIDE if 'read_exodus_mesh' not in t),
-              'ReadMesh.read_json_mesh (JSON reader) as a file reader: not applicable',
+              'ReadMesh.read_json_mesh (JSON reader): set members on symbolic content in O10; the JSON text format itself is not encoded',
               'Exodus reader: the netCDF C library / file format, files whose blocks have different nodes-per-element or element types (the reader asserts), blocks or sets sharing a name, '
               'empty sets, masked (missing) data, read_exodus_mesh_element_properties; Tri6 vertex-node extraction on symbolic connectivity (needs concrete ids: covered by O5)')
     h.assume_note('PX: the real source of optimism/ReadExodusMesh.py is executed; module attributes replaced in the symbolic run: netCDF4 (in-memory stand-in exposing dimensions / variables), '
@@ -1664,3 +1666,64 @@ def o6b(h):
                     Le(grid, TOLG * max(Ex, Ey), name='vertex_nodes_on_the_regular_grid', scale=SC),
                     Le(lhs, TOL_NODE, name='nodes_eq_v2_plus_J_xi', scale=SC)]
             E.case.prove('O6b[%s]' % E.label, spec, cap=40)
+
+
+# ------------------------------------------------------------------------------------------ O10: JSON reader keeps every side-set / node-set member
+@obligation(P, 'O10.json_reader_loses_no_set_member', cap=120)
+def o10(h):
+    """the real read_json_mesh on file CONTENT with symbolic side-set and node-set entries: the side set handed to the mesh constructor has one row per
+    listed (element, side) pair, in file order, with exactly the listed values - also when two entries name the same element or the same side or are
+    identical - and every node set keeps its entries in order (PX; json.load is the stub: it returns the parsed content)"""
+    from .. import px
+    from optimism import ReadMesh as R
+    h.encoded(R.read_json_mesh)
+    h.bounds('a file with one side set of 3 entries (element ids and side ids: symbolic integers, any values, equal or not) and one node set of 3 symbolic integer entries; '
+             'coordinates / connectivity: a concrete two-triangle mesh (passed through)')
+    h.outside('the JSON text format and json.load itself (stubbed: returns the parsed content); Mesh.construct_mesh_from_basic_data (stubbed: records its arguments; its tables are O4/O7)',
+              'more than 3 entries per set, several side sets')
+    h.assume_note('PX: the real source of optimism/ReadMesh.py runs with `json.load` returning the symbolic content, builtin open replaced by a no-op context, np replaced by NumPy on object arrays of proxies '
+                  '(np.array(..., dtype=int) keeps the proxies), optimism.Mesh replaced by a recorder',
+                  'replay: a REAL JSON file with the model values is written to /tmp and read by the real optimism.ReadMesh.read_json_mesh')
+    NENT = 3
+
+    def fn(ex):
+        import contextlib
+        els = [ex.int('elem_%d' % k) for k in range(NENT)]
+        sds = [ex.int('side_%d' % k) for k in range(NENT)]
+        nds = [ex.int('node_%d' % k) for k in range(NENT)]
+        content = {'coordinates': [[0., 0.], [1., 0.], [0., 1.], [1., 1.]], 'connectivity': [[0, 1, 2], [1, 3, 2]],
+                   'nodeSets': {'ns': list(nds)}, 'sideSets': {'ss': [list(els), list(sds)]}}
+        U = px.unwrap
+        if ex.symbolic:
+            rec = {}
+
+            def arr(v, dtype=None):
+                a = onp.empty(onp.shape(onp.array(v, dtype=object)), dtype=object)
+                a[...] = onp.array(v, dtype=object)
+                return a
+            npx = types.SimpleNamespace(array=arr, column_stack=onp.column_stack, asarray=arr)
+            mesh_stub = types.SimpleNamespace(construct_mesh_from_basic_data=lambda c, cn, b, ns, ss: rec.update(ns=ns, ss=ss, blocks=b) or rec)
+            json_stub = types.SimpleNamespace(load=lambda f: content)
+            mod = px.load_module('optimism/ReadMesh.py', shims={'optimism.JaxConfig': px.jaxconfig_shim(extra=dict(np=npx)), 'optimism.Mesh': mesh_stub, 'optimism': types.SimpleNamespace(Mesh=mesh_stub), 'json': json_stub})
+            mod.open = lambda *a, **k: contextlib.nullcontext()
+            mod.json = json_stub
+            mod.read_json_mesh('symbolic.json')
+            ss, ns = rec['ss']['ss'], rec['ns']['ns']
+        else:
+            import json as _json
+            path = '/tmp/c13_json_replay_%d.json' % os.getpid()
+            with open(path, 'w') as f:
+                _json.dump(content, f)
+            try:
+                mesh = R.read_json_mesh(path)
+            finally:
+                os.remove(path)
+            ss, ns = onp.asarray(mesh.sideSets['ss']), onp.asarray(mesh.nodeSets['ns'])
+        n_ss, n_ns = int(onp.shape(ss)[0]), int(onp.shape(ns)[0])
+        ex.goal('side_set_keeps_one_row_per_listed_pair', Holds(n_ss == NENT and tuple(onp.shape(ss))[1:] == (2,)), info='side set shape %s for %d listed pairs' % (onp.shape(ss), NENT))
+        ex.goal('node_set_keeps_every_entry', Holds(n_ns == NENT), info='node set shape %s' % (onp.shape(ns),))
+        if n_ss == NENT and tuple(onp.shape(ss))[1:] == (2,):
+            ex.goal('side_set_rows_are_the_listed_pairs_in_file_order', Eq([U(ss[k][j]) for k in range(NENT) for j in range(2)], [U(x) for k in range(NENT) for x in (els[k], sds[k])]))
+        if n_ns == NENT:
+            ex.goal('node_set_entries_in_file_order', Eq([U(ns[k]) for k in range(NENT)], [U(x) for x in nds]))
+    px.run_px(h, 'read_json_mesh', fn, cap=20, order=('core',), expect_goals=['side_set_keeps_one_row_per_listed_pair', 'side_set_rows_are_the_listed_pairs_in_file_order', 'node_set_entries_in_file_order'])
